@@ -45,6 +45,9 @@ CHECKS = {
  'C16': dict(cat=MC, technique='TLA+ transcription of Hooke (1D, plane stress, plane strain, 3D) and Ramberg-Osgood with n = 1/m in exact rationals (spec/materials); TLC proves inverses / embeddings / oddness / Masing on the lattice; each lattice state evaluated through the real classes',
    text='For rational E, nu, stresses and n = 1/m the laws are rational functions, so TLC decides invertibility, the plane/3D embeddings, oddness, monotonicity and the Masing relations exactly on the specification and every lattice state is an implementation test (closed forms at 1e-11, Newton inverses at the documented solver tolerance, scalar and array forms, independence of array neighbours).',
    note='true_strain (logarithm) has no lattice: numeric check only; Newton inverse only claimed for strains <= 100 %', ref='5 C16'),
+ 'C17': dict(cat=MC, technique='TLA+ construction T = R D R^T from integer principal values and integer-quaternion rotations (exact integers), definitions of all equivalent stresses from the principal values, rotation-invariance theorems checked by TLC; the float image of every lattice tensor evaluated by the real functions and the accessor',
+   text='TLC proves on the exact lattice that the component formulas are rotation invariant and that the definitions obey the Mises/Tresca bounds; each (principal values, rotation) state is an implementation test whose expected value comes from the principal values (never an eigen-solver), at four scales (homogeneity), scalar / column / accessor forms, with the documented +1 sign rule required wherever the code arithmetic is exact.',
+   note='sign of a mathematically zero indicator accepted either way for inexactly representable rotated tensors', ref='5 C17'),
 }
 PENDING = 'check not built yet in this round (planned, see DESIGN.md section 5)'
 NA = {
